@@ -84,11 +84,16 @@ def cli_case(c, text, workdir, n):
             rc = cli.main(argv)
         except SystemExit as e:
             rc = 'exit%s' % e.code
+        except Exception as e:  # noqa  (an exception escaping main is itself a difference from format())
+            rc = 'exception:%s' % type(e).__name__
         sys.stdout.flush()
-        if c['out'] == 'outfile':
-            got = open(outpath, 'rb').read().decode(enc) if os.path.exists(outpath) else None
-        else:
-            got = stdout_b.getvalue().decode(enc)
+        try:
+            if c['out'] == 'outfile':
+                got = open(outpath, 'rb').read().decode(enc) if os.path.exists(outpath) else None
+            else:
+                got = stdout_b.getvalue().decode(enc)
+        except UnicodeDecodeError:
+            got = '<<output is not valid %s>>' % enc
     finally:
         sys.stdin, sys.stdout, sys.stderr = old
         for p in (inpath, outpath):
